@@ -235,7 +235,7 @@ pub fn oracle(d: &Damaged, o: &Observed) -> Verdict {
             }
             Verdict::Pass
         }
-        ReadMode::Bytes | ReadMode::WriteTo | ReadMode::TextUtf8 | ReadMode::Json => {
+        ReadMode::Bytes | ReadMode::WriteTo | ReadMode::TextUtf8 | ReadMode::Text | ReadMode::Json | ReadMode::JsonUtf8 => {
             let c = &o.calls[0];
             if plan.read_mode_is_write_to() && !is_prefix(&o.output, &r.max_output) {
                 return violation(format!("prefix-violated:{}", tag), format!("write_to wrote bytes that are not a prefix of what the server sent ({} bytes)", o.output.len()));
@@ -250,7 +250,7 @@ pub fn oracle(d: &Damaged, o: &Observed) -> Verdict {
                         );
                     }
                     let good = match (&o.text, &plan.read_mode) {
-                        (Some(t), ReadMode::Json) => serde_json::from_slice::<serde_json::Value>(&r.max_output).map(|v| serde_json::to_string(&v).unwrap_or_default() == *t).unwrap_or(false),
+                        (Some(t), ReadMode::Json | ReadMode::JsonUtf8) => serde_json::from_slice::<serde_json::Value>(&r.max_output).map(|v| serde_json::to_string(&v).unwrap_or_default() == *t).unwrap_or(false),
                         (Some(t), _) => *t == String::from_utf8_lossy(&r.max_output),
                         (None, _) => o.output == r.max_output,
                     };
